@@ -5,7 +5,7 @@ Spec: spec/ReadSpec.tla; MC: mc/MC_ReadSpec (+ _quick/_thorough/_tree4/_tree6 cf
 spec -> code: every state with pc = "done" of MC_ReadSpec is a call together with the dictionary the specification
 demands; the survey tree is written as real FITS files from the pc = "file" states (cell values are TLC's), every call
 is executed by the real readspec and every returned array compared with TLC's.  pc = "appended" states are spec_append
-cases.  code -> spec: seeded random calls (request vectors up to 40 long on a 9-file tree, all conventions, all ways of
+cases.  The "runs" family (blocks of fibres of one file in every order) is replayed in full.  code -> spec: seeded random calls (request vectors up to 40 long on a 9-file tree, all conventions, all ways of
 locating the tree), the spec_append calls readspec makes while serving them, and random spec_append calls are recorded
 and judged by TLC (Trace_ReadSpec).
 """
@@ -586,7 +586,7 @@ def gen_call(rng, meta):
         by_plate.setdefault(m['plate'], []).append(m)
     latest = {p: max(v, key=lambda x: x['mjd']) for p, v in by_plate.items()}
     cp, cm, cf = rng.choice(CONVS)
-    n = 1 if (cp == 's' and cf == 's') else rng.choice([1, 2, 3, 4, 5, 6, 8, 11, 16, 17, 18, 20, 23, 27, 30, 34, 37, 40])
+    n = 1 if (cp == 's' and cf == 's') else rng.choice([1, 2, 3, 4, 5, 6, 8, 9, 10, 11, 12, 16, 17, 18, 20, 23, 27, 30, 34, 37, 40])
     if cp == 's':
         plate = rng.choice(sorted(by_plate))
         f = latest[plate] if cm == 'o' else rng.choice(by_plate[plate])
@@ -605,7 +605,7 @@ def gen_call(rng, meta):
     if cf == 's':
         fib = [rng.randint(1, min(r['nfib'] for r in rows))] * n
     else:
-        style = rng.choice(['any', 'any', 'last', 'same', 'descending'])
+        style = rng.choice(['any', 'any', 'last', 'same', 'descending', 'block', 'block'])
         fib = [rng.randint(1, r['nfib']) for r in rows]
         if style == 'last':
             fib = [r['nfib'] if rng.random() < 0.5 else x for r, x in zip(rows, fib)]
@@ -614,6 +614,38 @@ def gen_call(rng, meta):
         elif style == 'descending':
             fib = sorted(fib, reverse=True)
             fib = [min(x, r['nfib']) for r, x in zip(rows, fib)]
+        elif style == 'block':
+            # the requests on each file ask for a contiguous block of its fibres, in one of the orders of the "runs"
+            # family of MC_ReadSpec (a file asked for more rows than it has fibres keeps its random fibres)
+            where = {}
+            for i, r in enumerate(rows):
+                where.setdefault((r['plate'], r['mjd']), []).append(i)
+            for pos in where.values():
+                k, nf = len(pos), rows[pos[0]]['nfib']
+                if k > nf:
+                    continue
+                a = rng.randint(1, nf - k + 1)
+                blk = list(range(a, a + k))
+                shape = rng.choice(['asc', 'desc', 'shuffle', 'rot', 'swap', 'dup', 'ends', 'ends'])
+                if shape == 'desc':
+                    blk.reverse()
+                elif shape == 'shuffle':
+                    rng.shuffle(blk)
+                elif shape == 'rot':
+                    c = rng.randrange(k)
+                    blk = blk[c:] + blk[:c]
+                elif shape == 'swap' and k >= 2:
+                    c = rng.randrange(k - 1)
+                    blk[c], blk[c + 1] = blk[c + 1], blk[c]
+                elif shape == 'dup' and k >= 3:
+                    c = rng.randrange(1, k - 1)
+                    blk[c] = blk[c - 1]
+                elif shape == 'ends' and k >= 4:
+                    mid = blk[1:-1]
+                    rng.shuffle(mid)
+                    blk[1:-1] = mid
+                for i, x in zip(pos, blk):
+                    fib[i] = x
     loc = 'env' if rng.random() < 0.6 else rng.choice(['topdir', 'run2d', 'run1d', 'path', 'bare'])
     if loc == 'path' and len({r['plate'] for r in rows}) > 1:
         loc = 'env'
@@ -677,6 +709,11 @@ def run(ctx):
         'with BSCALE/BZERO scaling other than the unsigned convention (astropy hands readspec float32 physical values)',
         'request vectors are exhaustive up to length 3 (quick) / 4 (thorough) over 4 files x 3 fibres; longer vectors '
         'of 17..40 elements with repeats come from the scrambled "long" family of MC_ReadSpec (both tiers) and from the recorded direction (<= 40, 9 files, all fibres)',
+        'the "runs" family of MC_ReadSpec asks for contiguous blocks of 2..24 (thorough ..40) fibres of one file in ascending, descending, '
+        'rotated, neighbour-swapped, end-points-fixed and one-fibre-repeated order, alone and interleaved with another file; the recorded '
+        'direction draws such blocks at random per file',
+        'wavelength solution vs pixel count is a dimension of both trees (SolutionRelationsCovered): files that follow one another in '
+        '(plate, MJD) order share COEFF0/COEFF1 with a larger / smaller pixel count, or share the pixel count with another solution',
     ]
     _quiet()
     # the big TLC run works in the background while the recorded direction (which does not need it) is carried out
@@ -707,14 +744,17 @@ def mc_direction(ctx, r):
         # quick: every location / all-fibre / spec_append case and every request vector of length <= 2, plus a seeded
         # sample of the length-3 vectors located through the environment (thorough replays all)
         srng = random.Random(ctx.seed)
-        big = [it for it in items if 'loc |-> "env"' in it[1] and 'f |-> <<>>' not in it[1] and 3 <= it[1].count('plate |->') < 17]
+        # (the "runs" family - blocks of fibres of one file in every order - is replayed in full)
+        big = [it for it in items if 'loc |-> "env"' in it[1] and 'f |-> <<>>' not in it[1] and 'fam |-> "runs"' not in it[1]
+               and 3 <= it[1].count('plate |->') < 17]
         keep = set(k for k, _ in srng.sample(big, min(len(big), 600)))
         bigk = set(k for k, _ in big)
         items = [it for it in items if it[0] not in bigk or it[0] in keep]
     ctx.sample({'tlc_cases_total': ntlc, 'tlc_cases_replayed': len(items)})
     nviol = 0
     for out in _pool_map(_mc_case, items):
-        ctx.evaluated(out['ncalls'], out['kind'] if out['kind'] == 'append-mc' else 'readspec-' + out['call']['loc'])
+        ctx.evaluated(out['ncalls'], out['kind'] if out['kind'] == 'append-mc' else
+                      'readspec-' + (out['call'].get('fam') or out['call']['loc']))
         ctx.validated(out['ncalls'])
         if out['nontriv']:
             ctx.nontriv(json.dumps(out['call'], sort_keys=True))
